@@ -74,7 +74,7 @@ func (Prop) Plan(tier string) []lib.Workload {
 			}
 		}
 		out = append(out, lib.Workload{Name: t.name, Cases: n, Batches: b, MinNontrivial: t.minNT, MemLimitMB: t.memMB,
-			CaseTimeout: 15 * time.Minute, BatchTimeout: 60 * time.Minute})
+			CaseTimeout: 15 * time.Minute, BatchTimeout: 120 * time.Minute})
 		if t.name == "crypto" || t.name == "acl.addressed" {
 			// a tenth of the inputs of the cheap / most exposed targets also run under -race (checkptr)
 			rn := n / 10
@@ -82,7 +82,7 @@ func (Prop) Plan(tier string) []lib.Workload {
 				rn = 1
 			}
 			out = append(out, lib.Workload{Name: t.name + ".race", Cases: rn, Batches: 2, Race: true, MinNontrivial: 1, MemLimitMB: t.memMB,
-				CaseTimeout: 20 * time.Minute, BatchTimeout: 60 * time.Minute})
+				CaseTimeout: 20 * time.Minute, BatchTimeout: 120 * time.Minute})
 		}
 	}
 	return out
